@@ -171,6 +171,28 @@ func rpcMetaOK(meta any, tt *fixture.TxTruth) bool {
 	if fee, ok := m["fee"].(float64); !ok || fee != 5000 {
 		return false
 	}
+	if tt.TokenUi != 0 {
+		// numbers survive digit for digit
+		ui := func(key string) (float64, string, bool) {
+			arr, _ := m[key].([]any)
+			if len(arr) != 1 {
+				return 0, "", false
+			}
+			tb, _ := arr[0].(map[string]any)
+			uta, _ := tb["uiTokenAmount"].(map[string]any)
+			f, ok := uta["uiAmount"].(float64)
+			str, _ := uta["uiAmountString"].(string)
+			return f, str, ok
+		}
+		pre, pres, ok1 := ui("preTokenBalances")
+		post, _, ok2 := ui("postTokenBalances")
+		if !ok1 || !ok2 || pre != tt.TokenUi || post != tt.TokenUi+1e-9 || pres != fmt.Sprintf("%.9f", tt.TokenUi) {
+			return false
+		}
+		if cu, ok := m["computeUnitsConsumed"].(float64); !ok || uint64(cu) != tt.ComputeUnits {
+			return false
+		}
+	}
 	if len(tt.Loaded) > 0 {
 		la, _ := m["loadedAddresses"].(map[string]any)
 		wr, _ := la["writable"].([]any)
